@@ -1,9 +1,9 @@
 """C01 - only datagrams authenticated under the session key can affect a connection."""
-from harness import core, connlib
+from harness import core, connlib, serverlib
 
 PROP = "C01"
 LEAN_MODULES = ["MpgsModel.Props.C01"]
-MODEL_MODULES = ["MpgsModel.Model.Conn", "MpgsModel.Model.ToyAead"]
+MODEL_MODULES = ["MpgsModel.Model.Conn", "MpgsModel.Model.ToyAead", "MpgsModel.Model.Server"]
 NS = "Mpgs.Conn."
 THEOREMS = [
     (NS + "C01_undecodable_noop", "full"),
@@ -120,6 +120,17 @@ def run(ctx):
     real = connlib.Real()
     rng = ctx.rng
     n = ctx.scale(70, 1500)
+    # the server-loop histories are recorded first (the unmodified loop runs while they are generated, before any other layer has
+    # touched the process); they are compared with the model at the end
+    scases, souts, sextra = [], {}, {}
+    for i in range(ctx.scale(40, 600)):
+        cid = "sl%d" % i
+        lines, outs, recs, slog = serverlib.gen_server_case(real, rng, cid, n_iter=rng.choice([30, 60]), n_clients=rng.choice([2, 3]),
+                                                            hostile=rng.choice([0.7, 0.9]), act_p=0.0, collide=0.1,
+                                                            mtu=rng.choice([1500, 512]), silent=0.05, leave=0.05, spawn=0.5)
+        scases.append(lines)
+        souts[cid] = outs
+        sextra[cid] = recs
     cases = []
     for i in range(n):
         mtu = rng.choice([1500, 1500, 1500, 512, 1098])
@@ -156,3 +167,18 @@ def run(ctx):
             break
     ctx.notes["attacker_datagrams"] = att_total
     ctx.notes["genuine_accepted"] = acc_total
+    if ctx.failures:
+        return
+    # ---- the same at the server loop: which object a datagram is handed to is decided by the loop (connected pool / half-open pool /
+    # new connection); forged datagrams - complete CRC-valid hellos included - in the name of clients whose handshake is in flight
+
+    def snontrivial(case, outs):
+        return sum(l.count("|") // 3 for l in case if l.startswith("it ")) >= 10 and any("connect:" in o for o in outs)
+    ctx.correspondence("Server(loop/forged)", "Conn", scases, lambda case: souts[core.case_id(case)], snontrivial,
+                       "the REAL server loop with honest clients connecting and leaving throughout and hostile datagrams - random bytes, valid "
+                       "headers with garbage bodies, damaged/stale/re-typed copies of genuine datagrams from spoofed addresses, complete "
+                       "CRC-valid hellos forged in the name of clients whose handshake is in flight - compared with the model per iteration "
+                       "(events, sends, both pools with object identity, status and token)", minimise=False, post=serverlib.post)
+    for c in scases:
+        if serverlib.halfopen_monitor(c, sextra[core.case_id(c)], ctx):
+            return
